@@ -174,8 +174,11 @@ def run(ctx):
   scope_ = []
   for mn_ in ('encoder_decoder', 'performance_encoder_decoder', 'melody_encoder_decoder', 'chords_encoder_decoder', 'pianoroll_encoder_decoder'):
     scope_.extend(fi_ for q_, fi_ in sorted(ctx.P.module(mn_).all_functions.items()) if fi_.cls is not None and '<locals>' not in q_)
+  pitfalls.apply(ctx, 'PITFALL', scope_, ['falsy-domain-zero'], {
+      'falsy-domain-zero': 'a melody event of pitch 0 (the lowest note of an encoder built with min_note=0) is decoded as "no event": decoding the label of a repeat does not give the repeated event'})
   pitfalls.apply(ctx, 'PITFALL', scope_, ['unforwarded-parameter'], {
       'unforwarded-parameter': 'the label side and the input side of the encoder are then built for different limits: labels outside num_classes, or labels that decode to events the input side refuses'})
+  default_event_in_range(ctx)
   sampled_sizes(ctx, 'GEN/sampled-size')
   steps_by_decoding(ctx, 'GEN/steps-by-decoding')
   note_block_size(ctx, 'NOTEPERF/pitch-block-size')
@@ -775,6 +778,37 @@ def slice_store_widths(ctx, ei, vec, rule):
     else:
       ok = ln[1].equals(width)
       ctx.ob(rule, ei, st, ok, 'the slice is as wide as the values stored into it' if ok else '%s values are stored into a slice %s wide' % (ln[1], width), construct=cons, definite=not ok)
+
+
+def default_event_in_range(ctx, rule='DEFAULT/event-of-the-encoding'):
+  """The default event of PerformanceOneHotEncoding (what a lookback encoder uses for a history that is too short) must be an event
+  of that encoding, whatever limits it was built with: a time shift of self._max_shift_steps (the upper end of the configured
+  range) or of 1 (its lower end).  A module constant is in range only for encodings whose limit is at least that constant."""
+  ci = ctx.cls('performance_encoder_decoder:PerformanceOneHotEncoding')
+  m = ci.methods.get('default_event')
+  cons = 'PerformanceOneHotEncoding.default_event lies in the configured time-shift range'
+  calls = [c for c in ast.walk(m.node) if isinstance(c, ast.Call) and (dotted(c.func) or '').split('.')[-1] == 'PerformanceEvent'] if m is not None else []
+  if len(calls) != 1:
+    why = 'cannot classify: default_event does not build exactly one PerformanceEvent'
+    ctx.ob(rule, ci, m.node if m is not None else ci.node, False, why, construct=cons, unknown=why)
+    return
+  c = calls[0]
+  val = next((k.value for k in c.keywords if k.arg == 'event_value'), c.args[1] if len(c.args) > 1 else None)
+  typ = next((k.value for k in c.keywords if k.arg == 'event_type'), c.args[0] if c.args else None)
+  if val is None or typ is None or not norm_text(typ).endswith('TIME_SHIFT'):
+    why = 'cannot classify: the default event is not a TIME_SHIFT built with an explicit value'
+    ctx.ob(rule, m, c, False, why, construct=cons, unknown=why)
+    return
+  vx = U.expand_locals(m.node, val, at=c)
+  k = U.const_value(vx)
+  if norm_text(vx) == 'self._max_shift_steps' or k == 1:
+    ctx.ob(rule, m, c, True, 'the default event is TIME_SHIFT(%s), an end of the configured range' % norm_text(vx), construct=cons)
+  elif isinstance(k, int):
+    ctx.ob(rule, m, c, False, 'the default event is TIME_SHIFT(%d) whatever max_shift_steps the encoding was built with: for a limit below %d it is not an event of the encoding - a lookback '
+           'encoder with a short history writes outside its blocks or raises, and the label of a repeat decodes to an event that cannot be encoded again' % (k, k), construct=cons, definite=True)
+  else:
+    why = 'cannot classify: the value %s of the default time shift' % norm_text(vx)
+    ctx.ob(rule, m, c, False, why, construct=cons, unknown=why)
 
 
 def sizes(ctx):
